@@ -69,20 +69,20 @@ Definition nofs (a : act) : bool :=
 Lemma nofs_safe S a : nofs a = true -> safeS S a = true.
 Proof. destruct a; simpl; intros; try reflexivity; discriminate. Qed.
 
-Lemma multi_nofs chunks : forall ra, forallb nofs (multi_acts chunks ra) = true.
+Lemma multi_nofs chunks e : forall ra, forallb nofs (multi_acts chunks ra e) = true.
 Proof.
   induction chunks as [|ch r IH]; intros [[|j]|]; simpl; try reflexivity; apply IH.
 Qed.
 
 Lemma tofile_nofs tens c sp : forallb nofs (tofile_acts tens c sp) = true.
 Proof.
-  destruct sp as [d|h| |chunks ra]; simpl; try reflexivity; [|apply multi_nofs].
+  destruct sp as [d|h|e|chunks ra e]; simpl; try reflexivity; [|apply multi_nofs].
   rewrite forallb_app. simpl. rewrite andb_true_r.
   induction (chunk_plan _ 0 _ c) as [|x r IH]; simpl; [reflexivity|exact IH].
 Qed.
 
 Lemma cb_nofs cb i : forallb nofs (cb_acts cb i) = true.
-Proof. destruct cb as [[j|]|]; reflexivity. Qed.
+Proof. destruct cb as [[[j e]|]|]; reflexivity. Qed.
 
 Lemma tensors_nofs tens c cb l : forall i, forallb nofs (tensors_acts tens c cb i l) = true.
 Proof.
